@@ -22,6 +22,7 @@ inductive Expr where
   | eq (a b : Expr) | lt (a b : Expr)
   | not (a : Expr) | and (a b : Expr) | or (a b : Expr)
   | add (a b : Expr)
+  | div (a b : Expr)             -- only ever generated with a zero divisor (an evaluation error)
   deriving Repr, Inhabited
 
 structure TransSpec where
